@@ -92,6 +92,26 @@ def check_reader(ctx, oid="C05.2"):
         R.check(oid, "DECISION-TABLE", fi, "first byte %d" % v, ok,
                 "CompactSize reader for first byte %d: %s" % (v, tm.first_diff(got_t, want)),
                 expected=tm.show(want), found=tm.show(got), example="buffer starting with byte 0x%02x" % v)
+    # refusals: the reader may refuse only a buffer that ends inside the integer (or, if it chooses to, a non-canonical
+    # encoding); a buffer that ends exactly after the integer and every canonical value of each width are accepted
+    canon = {0: (0, 252), 2: (253, 0xFFFF), 4: (0x10000, 0xFFFFFFFF), 8: (0x100000000, 0xFFFFFFFFFFFFFFFF)}
+    consts = rules.compare_constants(ev, fi)
+    for v, w in ((0, 0), (1, 0), (252, 0), (253, 2), (254, 4), (255, 8)):
+        lo, hi = canon[w]
+        val = tm.b2i(tm.slc(buf, 1, 1 + w), "little") if w else None
+        vals = [None] if not w else sorted({lo, lo + 1, hi} | {c for c in rules.representatives(consts, lo, hi)})
+        for x in vals:
+            for L in (1 + w, 1 + w + 1, 1 + w + 7):
+                ev.bind = {first: v, tm.length(buf): L}
+                if x is not None:
+                    ev.bind[val] = x
+                kind, got = rules.decided_outcome(ev.run(fi))
+                okv = kind == "return" and isinstance(got, (tuple, list)) and len(got) == 2 and (got[0] == (x if w else v) or tm.veq(got[0], val if w else v))
+                R.check(oid, "DECISION-TABLE", fi, "first byte %d, %s, %d bytes in the buffer: accepted" % (v, ("value %#x" % x) if x is not None else "1-byte form", L), okv,
+                        "CompactSize reader refuses or misreads a well-formed encoding: first byte %d, %s, buffer of %d bytes -> %s %s" % (
+                            v, ("value %#x" % x) if x is not None else "1-byte form", L, kind, tm.show(got)[:80]),
+                        example="CompactSize %s as the last thing in the buffer" % (("%#x" % x) if x is not None else v) if L == 1 + w else "CompactSize value %s" % (("%#x" % x) if x is not None else v),
+                        nontrivial=(x in (lo, hi, None)))
     ev.bind = {}
     R.floor(oid, len(reps), 6, "compact_size_reader_classes")
 
